@@ -1,23 +1,30 @@
 import UnytModel.Driver
 import UnytModel.Ops.C13
+import UnytModel.Ops.C13Home
 open Unyt
 
 /-- the C13 driver keeps its own world-of-registries session beside the shared driver state -/
-partial def loopC13 (h : IO.FS.Stream) (out : IO.FS.Stream) (st : DriverState) (cs : C13State) : IO Unit := do
+partial def loopC13 (h : IO.FS.Stream) (out : IO.FS.Stream) (st : DriverState) (cs : C13State)
+    (hs : UnitHome.Heap) : IO Unit := do
   let line ← h.getLine
   if line.isEmpty then return ()
   let l := if line.back == '\n' then String.ofList line.toList.dropLast else line
   let fields := l.splitOn "\t"
+  match C13Home.stepH hs fields with
+  | some (hs', o) =>
+    out.putStrLn o
+    loopC13 h out st cs hs'
+  | none =>
   match stepC13 cs fields with
   | some (cs', o) =>
     out.putStrLn o
-    loopC13 h out st cs'
+    loopC13 h out st cs' hs
   | none =>
     let (st', o) := stepWith (baseHandlers ++ [opsC13]) st fields
     out.putStrLn o
-    loopC13 h out st' cs
+    loopC13 h out st' cs hs
 
 def main : IO Unit := do
   let stdin ← IO.getStdin
   let stdout ← IO.getStdout
-  loopC13 stdin stdout {} {}
+  loopC13 stdin stdout {} {} {}
